@@ -333,6 +333,12 @@ static int insertNode(KSI_TreeBuilder *builder, KSI_TreeNode *node, int at) {
 
 		res = insertNode(builder, root, at + 1);
 		if (res != KSI_OK) {
+			/* Roll back: both subtrees stay as they were and only the joining node is released. */
+			root->leftChild = NULL;
+			root->rightChild = NULL;
+			pSlot->parent = NULL;
+			node->parent = NULL;
+			builder->stack[at] = pSlot;
 			KSI_pushError(builder->ctx, res, NULL);
 			goto cleanup;
 		}
@@ -382,16 +388,28 @@ static int processAndInsertNode(KSI_TreeBuilder *builder, KSI_TreeNode *node) {
 		if (tmp != NULL) {
 			res = KSI_TreeNode_join(builder->ctx, builder->hsr, tmp, localRoot == NULL ? node : localRoot, &localRoot);
 			if (res != KSI_OK) goto cleanup;
+			/* The processor node belongs to the local root now. */
+			tmp = NULL;
 		}
 	}
 
 	res = insertNode(builder, localRoot == NULL ? node : localRoot, 0);
 	if (res != KSI_OK) goto cleanup;
 
+	/* The nodes belong to the tree now. */
+	localRoot = NULL;
 	tmp = NULL;
 
 cleanup:
 
+	/* On failure release the nodes created here, but not the node of the caller (the rightmost descendant). */
+	while (localRoot != NULL && localRoot != node) {
+		KSI_TreeNode *next = localRoot->rightChild;
+		localRoot->rightChild = NULL;
+		if (next != NULL) next->parent = NULL;
+		KSI_TreeNode_free(localRoot);
+		localRoot = next;
+	}
 	KSI_TreeNode_free(tmp);
 
 	return res;
@@ -500,13 +518,7 @@ static int addLeaf(KSI_TreeBuilder *builder, KSI_DataHash *hsh, KSI_MetaData *me
 		goto cleanup;
 	}
 
-	/* Insert the leaf. */
-	res = processAndInsertNode(builder, node);
-	if (res != KSI_OK) {
-		KSI_pushError(builder->ctx, res, NULL);
-		goto cleanup;
-	}
-
+	/* Create the handle first: once the leaf is in the tree the operation may not fail any more. */
 	if (leaf != NULL) {
 		tmp = KSI_new(KSI_TreeLeafHandle);
 		if (tmp == NULL) {
@@ -517,12 +529,22 @@ static int addLeaf(KSI_TreeBuilder *builder, KSI_DataHash *hsh, KSI_MetaData *me
 		tmp->pBuilder = builder;
 		tmp->leafNode = node;
 		tmp->ref = 1;
+	}
 
+	/* Insert the leaf. */
+	res = processAndInsertNode(builder, node);
+	if (res != KSI_OK) {
+		KSI_pushError(builder->ctx, res, NULL);
+		goto cleanup;
+	}
+
+	/* The node belongs to the tree now. */
+	node = NULL;
+
+	if (leaf != NULL) {
 		*leaf = tmp;
 		tmp = NULL;
 	}
-
-	node = NULL;
 
 	res = KSI_OK;
 
